@@ -257,6 +257,11 @@ func (wg *WaitGroup) Wait() {
 	ch := wg.q.add()
 	block(ch)
 	simrt.Post(e, "WaitGroup.Wait")
+	// the standard library's misuse check: between the release of the waiters and this one's return nobody
+	// may have started to use the group again (an Add from zero, or a new waiter)
+	if wg.n != 0 || wg.waiters != 0 {
+		panic("sync: WaitGroup is reused before previous Wait has returned")
+	}
 	simrt.RaceAcquire(unsafe.Pointer(&wg.tag))
 }
 
